@@ -282,9 +282,13 @@ class NetworkClient(KGLambda):
         From the KlongPy perspective, any outstanding remote calls will fail with the close_exception.
 
         """
-        for future in self.pending_responses.values():
-            future.set_exception(close_exception)
+        # call() registers futures from other threads: take the futures out atomically first, a dict that
+        # grows while it is iterated raises RuntimeError and would leave the remaining callers waiting forever
+        futures = list(self.pending_responses.values())
         self.pending_responses.clear()
+        for future in futures:
+            if not future.done():
+                future.set_exception(close_exception)
 
     def run_client(self):
         """
